@@ -116,6 +116,9 @@ func (in *Interp) unsupported(format string, a ...interface{}) {
 	where := ""
 	if n := len(in.callStack); n > 0 {
 		where = " in " + in.callStack[n-1].String() + " at " + in.posStr(in.curPos)
+		for i := n - 2; i >= 0 && i >= n-7; i-- {
+			where += " <- " + in.callStack[i].String()
+		}
 	}
 	panic(pathAbort{kind: "unsupported", detail: fmt.Sprintf(format, a...) + where})
 }
@@ -863,7 +866,11 @@ func (in *Interp) visitInstr(fr *frame, instr ssa.Instruction) continuation {
 			fr.env[instr] = cell
 			break
 		}
-		fr.env[instr] = &(*p).(Struct)[instr.Field]
+		st, isStruct := (*p).(Struct)
+		if !isStruct {
+			in.unsupported("FieldAddr on pointer to %T (%v)", *p, instr.X.Type())
+		}
+		fr.env[instr] = &st[instr.Field]
 
 	case *ssa.Field:
 		fr.env[instr] = fr.get(instr.X).(Struct)[instr.Field]
